@@ -60,16 +60,20 @@ class Typer(object):
                     return self.type_of(e.args[0], env, cls)
                 if fn.id == 'radians' and len(e.args) == 1:
                     t = self.type_of(e.args[0], env, cls)
-                    return 'rad' if t == 'dec' else ('?', 'radians() applied to %s' % (t,))
+                    return 'rad' if t == 'dec' else (('!', 'radians() applied to a value in %s notation' % t) if isinstance(t, str) else t)
                 if fn.id in CLASS_NOTATION and len(e.args) == 1 and fn.id != 'DMSAngle' and fn.id != 'DDMAngle':
                     want = {'DECAngle': 'dec', 'HPAngle': 'hp', 'GONAngle': 'gon'}[fn.id]
                     t = self.type_of(e.args[0], env, cls)
-                    return CLASS_NOTATION[fn.id] if t == want else ('?', '%s(%s): needs %s' % (fn.id, t, want))
+                    if t == want:
+                        return CLASS_NOTATION[fn.id]
+                    return ('!', '%s() is given a value in %s notation, it holds %s' % (fn.id, t, want)) if isinstance(t, str) else t
                 s = self.sig(fn.id)
                 if s and len(e.args) == 1 and fn.id in self.m.functions:
                     t = self.type_of(e.args[0], env, cls)
                     src = 'dec' if s[0] == 'dd' else s[0]
-                    return s[1] if t == src else ('?', '%s applied to %s' % (fn.id, t))
+                    if t == src:
+                        return s[1]
+                    return ('!', '%s is applied to a value in %s notation' % (fn.id, t)) if isinstance(t, str) else t
             if isinstance(fn, ast.Attribute) and isinstance(fn.value, ast.Name) and fn.value.id == 'self' and not e.args and cls is not None:
                 if fn.attr in ALL and fn.attr in cls.methods:
                     return fn.attr
@@ -95,6 +99,8 @@ def typing_rules(repo, rep):
             t = ty.type_of(rets[0].value, {f.params[0].name: src})
             if t == s[1]:
                 rep.holds('R-UNITS', key, where(f, f.node), '%s: %s -> %s through %s' % (name, src, s[1], stmt_text(rets[0].value)[:60]))
+            elif isinstance(t, tuple) and t[0] == '!':
+                rep.violated('R-UNITS', key, where(f, f.node), '%s: %s (%s)' % (name, t[1], stmt_text(rets[0].value)[:60]), expected='%s -> %s' % (src, s[1]), actual=t[1])
             elif isinstance(t, tuple):
                 # a leaf conversion computed directly: typed by its linear form (R-TABLE), not by composition
                 rep.holds('R-UNITS', key, where(f, f.node), '%s is a leaf conversion (checked by its defining form)' % name, work=False)
@@ -123,8 +129,14 @@ def typing_rules(repo, rep):
                 t = ty.type_of(v, {}, c)
                 if isinstance(t, tuple) and isinstance(v, ast.Call) and isinstance(v.func, ast.Name) and v.func.id in ('DMSAngle', 'DDMAngle'):
                     t = CLASS_NOTATION[v.func.id]
-                ts.add(t if not isinstance(t, tuple) else '?')
-            if ts == {mname}:
+                if isinstance(t, tuple) and t[0] == '!':
+                    ts.add('!' + t[1])
+                else:
+                    ts.add(t if not isinstance(t, tuple) else '?')
+            bad = [x for x in ts if x.startswith('!')]
+            if bad:
+                rep.violated('R-UNITS', key, where(f, f.node), '%s.%s(): %s' % (cname, mname, bad[0][1:]), expected='%s -> %s' % (note, mname), actual=bad[0][1:])
+            elif ts == {mname}:
                 rep.holds('R-UNITS', key, where(f, f.node), '%s.%s(): %s -> %s' % (cname, mname, note, mname))
             elif '?' in ts:
                 rep.holds('R-UNITS', key, where(f, f.node), '%s.%s() computes its value directly (checked by its defining form)' % (cname, mname), work=False)
